@@ -768,7 +768,7 @@ func runC17(b *runner.Batch) {
 func init() {
 	runner.Register(&runner.Check{
 		ID: "C17", Level: "exploration",
-		Rule:        "NeoFS contract deployed with notaryDisabled=true and n stored Alphabet keys. Exhaustive part: every sequence of setConfig calls of length 3 (quick) / 4 (thorough) for n = 1..3 over the step alphabet {stranger, each Alphabet key} x {2 decision ids} x {block gap 0 (same block), 1, 20, 21}; every prefix is judged. PRNG part: n = 1..7, cheque / alphabetUpdate (changes n and the threshold) / innerRingCandidateRemove / setConfig, gaps {1,2,5,19,20,21,22}, strangers. A ballot model predicts the exact invocation in which each decision fires; the effect (config value, payee GAS, Alphabet list, candidate list) and the notification must appear exactly there. distinct = (method, caller class, n, fires, live ballots).",
+		Rule:        "NeoFS contract deployed with notaryDisabled=true and n stored Alphabet keys. Exhaustive part: every sequence of setConfig calls of length 3 (quick) / 4 (thorough) for n = 1..3 over the step alphabet {stranger, each Alphabet key} x {2 decision ids} x {block gap 0 (same block), 1, 20, 21}; every prefix is judged. PRNG part: n = 1..7, cheque / alphabetUpdate (changes n and the threshold) / innerRingCandidateRemove / setConfig, gaps {1,2,5,19,20,21,22}, strangers. A ballot model predicts the exact invocation in which each decision fires; the effect (config value, payee GAS, Alphabet list, candidate list) and the notification must appear exactly there. distinct = (method, caller class, n, fires, live ballots). One vote in five passes its decision id as a Buffer (a value put together by the calling script), which is the same decision as the ByteString of the same bytes.",
 		Assumptions: []string{"neo-go v0.107.0 VM, ledger and native contracts are the trusted base", "contracts are compiled at check time from /repo/contracts", "a call witnessed by several Alphabet keys is not generated (the contract counts the first one)"},
 		Batches:     c17Batches, Chunk: 2, Helpers: []string{"reenter"},
 		Floors: []string{"exhaustive-sequences", "fired-at-threshold-n1", "fired-at-threshold-n2", "fired-at-threshold-n3", "fired-at-threshold-n4", "fired-at-threshold-n5", "fired-at-threshold-n6", "fired-at-threshold-n7",
